@@ -80,20 +80,11 @@ func (h *NFSProcedureHandler) handleReaddir(body io.Reader, reply *RPCReply, aut
 	buf.Write(cookieVerf[:])
 
 	entryCount := 0
-	maxReplySize := int(count) - 100
-	if maxReplySize < 128 {
-		maxReplySize = 128
-	}
 	reachedLimit := false
 
 	for i, entry := range entries {
 		if uint64(i) < cookie {
 			continue
-		}
-
-		if buf.Len() >= maxReplySize {
-			reachedLimit = true
-			break
 		}
 
 		// Skip entries with nil attrs
@@ -105,6 +96,21 @@ func (h *NFSProcedureHandler) handleReaddir(body io.Reader, reply *RPCReply, aut
 		fileId := entry.attrs.FileId
 		entry.mu.RUnlock()
 
+		// M1: Use path.Base() for name extraction
+		name := path.Base(entry.path)
+		if entry.path == "/" {
+			name = "/"
+		}
+
+		// The encoded READDIR3resok (buf minus the status word, plus this entry and
+		// the 8-byte list terminator + eof) must fit within count. The first entry
+		// is always returned so that a listing makes progress.
+		entrySize := 4 + 8 + 4 + (len(name)+3)&^3 + 8
+		if entryCount > 0 && int64(buf.Len()-4+entrySize+8) > int64(count) {
+			reachedLimit = true
+			break
+		}
+
 		xdrEncodeUint32(&buf, 1)
 
 		// R4: Copy fileId under RLock
@@ -112,11 +118,6 @@ func (h *NFSProcedureHandler) handleReaddir(body io.Reader, reply *RPCReply, aut
 			return nfsErrorWithPostOp(reply, NFSERR_IO), nil
 		}
 
-		// M1: Use path.Base() for name extraction
-		name := path.Base(entry.path)
-		if entry.path == "/" {
-			name = "/"
-		}
 		if err := xdrEncodeString(&buf, name); err != nil {
 			return nfsErrorWithPostOp(reply, NFSERR_IO), nil
 		}
@@ -211,19 +212,10 @@ func (h *NFSProcedureHandler) handleReaddirplus(body io.Reader, reply *RPCReply,
 
 	entryCount := 0
 	reachedLimit := false
-	maxReplySize := int(maxCount) - 200
-	if maxReplySize < 256 {
-		maxReplySize = 256
-	}
 
 	for i, entry := range entries {
 		if uint64(i) < cookie {
 			continue
-		}
-
-		if buf.Len() >= maxReplySize && entryCount > 0 {
-			reachedLimit = true
-			break
 		}
 
 		// Skip entries with nil attrs
@@ -235,6 +227,22 @@ func (h *NFSProcedureHandler) handleReaddirplus(body io.Reader, reply *RPCReply,
 		entryAttrsCopy := *entry.attrs
 		entry.mu.RUnlock()
 
+		// M1: Use path.Base() for name extraction
+		name := path.Base(entry.path)
+		if entry.path == "/" {
+			name = "/"
+		}
+
+		// The encoded READDIRPLUS3resok (buf minus the status word, plus this entry
+		// with its attributes (4+84) and handle (4+4+8), plus the 8-byte list
+		// terminator + eof) must fit within maxcount. The first entry is always
+		// returned so that a listing makes progress.
+		entrySize := 4 + 8 + 4 + (len(name)+3)&^3 + 8 + 88 + 16
+		if entryCount > 0 && int64(buf.Len()-4+entrySize+8) > int64(maxCount) {
+			reachedLimit = true
+			break
+		}
+
 		xdrEncodeUint32(&buf, 1)
 
 		entryCookie := uint64(i + 1)
@@ -243,11 +251,6 @@ func (h *NFSProcedureHandler) handleReaddirplus(body io.Reader, reply *RPCReply,
 			return nfsErrorWithPostOp(reply, NFSERR_IO), nil
 		}
 
-		// M1: Use path.Base() for name extraction
-		name := path.Base(entry.path)
-		if entry.path == "/" {
-			name = "/"
-		}
 		if err := xdrEncodeString(&buf, name); err != nil {
 			return nfsErrorWithPostOp(reply, NFSERR_IO), nil
 		}
